@@ -225,6 +225,9 @@ func init() {
 	I["fmt.Sprintf"] = func(fc *FCtx, st *State, e *ast.CallExpr, r *Val, a []Val) []Val {
 		return []Val{{T: fc.U.Fresh("sprintf", SStr), S: SStr, GoT: fc.resT(e)}}
 	}
+	I["(error).Error"] = func(fc *FCtx, st *State, e *ast.CallExpr, r *Val, a []Val) []Val {
+		return []Val{{T: fc.U.Fresh("errstr", SStr), S: SStr, GoT: fc.resT(e)}}
+	}
 	I["errors.Is"] = func(fc *FCtx, st *State, e *ast.CallExpr, r *Val, a []Val) []Val {
 		return bv(fmt.Sprintf("(and (= %s %s) (not (= %s 0)))", a[0].T, a[1].T, a[0].T))
 	}
